@@ -29,7 +29,7 @@ ASSUMPTIONS = [
 ]
 NSHARDS = {"quick": 16, "thorough": 16}
 N_SIM = {"quick": 110, "thorough": 3500}
-REQUIRE = {"sim_runs": 1500, "corner:tps1": 50, "corner:tps100000": 30, "corner:one_cpu": 100, "corner:sub_gb": 100,
+REQUIRE = {"scale:run_with_more_than_8192_pipelines": 1, "scale:run_with_more_than_4096_exits_on_one_pool": 1, "sim_runs": 1500, "corner:tps1": 50, "corner:tps100000": 30, "corner:one_cpu": 100, "corner:sub_gb": 100,
            "corner:sub_tick_run": 16, "corner:decimal_triple": 50, "corner:zero_tick_segments": 100, "cli_runs": 16, "cli_init_runs": 16,
            "sim_runs:vtemplate/single": 30, "sim_runs:overbook/single": 30, "sim_runs:priority-pool/multi": 30,
            "sim_runs:naive/multi": 30, "sim_runs:priority/single": 30, "sim_suspensions": 40}
